@@ -601,6 +601,18 @@ func (repo *GoGitRepo) StoreCommit(treeHash Hash, parents ...Hash) (Hash, error)
 	return repo.StoreSignedCommit(treeHash, nil, parents...)
 }
 
+// cleanIdent removes, as git does, the characters that delimit the fields of an author/committer
+// line: written verbatim they make a commit that git's consistency check refuses.
+func cleanIdent(s string) string {
+	return strings.Map(func(r rune) rune {
+		switch r {
+		case '<', '>', '\n', 0:
+			return -1
+		}
+		return r
+	}, s)
+}
+
 // StoreSignedCommit will store a Git commit with the given Git tree. If signKey is not nil, the commit
 // will be signed accordingly.
 func (repo *GoGitRepo) StoreSignedCommit(treeHash Hash, signKey *openpgp.Entity, parents ...Hash) (Hash, error) {
@@ -611,13 +623,13 @@ func (repo *GoGitRepo) StoreSignedCommit(treeHash Hash, signKey *openpgp.Entity,
 
 	commit := object.Commit{
 		Author: object.Signature{
-			Name:  cfg.Author.Name,
-			Email: cfg.Author.Email,
+			Name:  cleanIdent(cfg.Author.Name),
+			Email: cleanIdent(cfg.Author.Email),
 			When:  time.Now(),
 		},
 		Committer: object.Signature{
-			Name:  cfg.Committer.Name,
-			Email: cfg.Committer.Email,
+			Name:  cleanIdent(cfg.Committer.Name),
+			Email: cleanIdent(cfg.Committer.Email),
 			When:  time.Now(),
 		},
 		Message:  "",
